@@ -141,11 +141,11 @@ pub open spec fn parse_all(b: Seq<u8>) -> Option<Value> {
 /// been read.
 pub(crate) fn read_to_value(mut slice: &[u8]) ->« (r:» Result<Value>«)
     ensures
-        match crate::vprelude::parse(slice@)» {«
+        match crate::vprelude::parse(slice@) {
             Some((v, n)) => if n == slice@.len() { r == Ok::<Value, CoseError>(v) } else { r matches Err(e) && e is ExtraneousData },
             None => r matches Err(e) && e is DecodeFailed,
         }
-{
+» {«
     broadcast use axiom_question_mark_uses_from;»
     let value = crate::vprelude::from_reader_slice(&mut slice)?;
     if slice.is_empty() {
@@ -171,8 +171,8 @@ pub trait CborSerializable: AsCborValue {
     /// `CoseError::ExtraneousData`) if there is additional CBOR data after the object.
     fn from_slice(slice: &[u8]) ->« (r:» Result<Self>«)
         ensures
-            match parse_all(slice@)» {« Some(v) => Self::dec_rel(v, r), None => r is Err },
-    {
+            match parse_all(slice@) { Some(v) => Self::dec_rel(v, r), None => r is Err },
+   » {«
         broadcast use axiom_question_mark_uses_from;»
         Self::from_cbor_value(read_to_value(slice)?)
     }
